@@ -14,6 +14,7 @@ import (
 	"runtime/debug"
 	"strings"
 	"sync"
+	"sync/atomic"
 	"time"
 
 	dbm "github.com/tendermint/tm-db"
@@ -168,7 +169,14 @@ func (w *bcWrapper) RemovePeer(peer p2p.Peer, reason interface{}) {
 		r = r[:200] + "…"
 	}
 	w.Reactor.RemovePeer(peer, reason)
-	w.h.log.add("node_remove_peer", w.h.nameOf(peer.ID()), 0, r)
+	name := w.h.nameOf(peer.ID())
+	w.h.log.add("node_remove_peer", name, 0, r)
+	if reason != nil {
+		atomic.AddInt32(&w.h.errDrops, 1)
+		if w.h.specOf(name).Honest {
+			atomic.AddInt32(&w.h.honestErrDrops, 1)
+		}
+	}
 }
 
 // ---- the consensus side of the hand-over
@@ -242,6 +250,8 @@ type harness struct {
 	live            []Finding
 	execNext        int64
 	reconnects      map[string]int
+	errDrops        int32 // peers the node removed with an error
+	honestErrDrops  int32 // honest ones among them
 }
 
 func (h *harness) nameOf(id p2p.ID) string {
@@ -437,6 +447,7 @@ type Result struct {
 	HonestTip    int64          `json:"honest_tip"`
 	ElapsedMs    int64          `json:"elapsed_ms"`
 	Inconclusive string         `json:"inconclusive,omitempty"`
+	Aborted      string         `json:"gave_up,omitempty"`
 }
 
 func (h *harness) checkCommit(ht int64, which string, cm *types.Commit) CommitCheck {
@@ -493,8 +504,11 @@ func runScenario(sc *Scenario, w *world) *Result {
 		}
 	}
 	for i := range h.peerSw {
-		p2p.Connect2Switches([]*p2p.Switch{h.node.sw, h.peerSw[i]}, 0, 1)
+		if !sc.Peers[i].Late {
+			p2p.Connect2Switches([]*p2p.Switch{h.node.sw, h.peerSw[i]}, 0, 1)
+		}
 	}
+	abortCh := make(chan string, 1)
 	// honest peers come back after being dropped (as persistent peers do), a bounded number of times
 	stopRe := make(chan struct{})
 	var reWG sync.WaitGroup
@@ -502,14 +516,49 @@ func runScenario(sc *Scenario, w *world) *Result {
 	go func() {
 		defer reWG.Done()
 		goneSince := map[int]time.Time{}
+		lateDone := map[int]bool{}
+		var exhaustedSince time.Time
 		for {
 			select {
 			case <-stopRe:
 				return
 			case <-time.After(20 * time.Millisecond):
 			}
+			// a late peer connects once the node has dropped somebody for an error (1.5 s at the latest)
+			for i := range sc.Peers {
+				if sc.Peers[i].Late && !lateDone[i] && (atomic.LoadInt32(&h.errDrops) > 0 || time.Since(start) > 1500*time.Millisecond) {
+					lateDone[i] = true
+					h.log.add("late_connect", sc.Peers[i].Name, 0, "")
+					p2p.Connect2Switches([]*p2p.Switch{h.node.sw, h.peerSw[i]}, 0, 1)
+				}
+			}
+			// give up (logical bound, not a clock): honest peers were dropped 12 times, or all of them are
+			// gone with their re-connect budget used up
+			allGone := true
 			for i := range sc.Peers {
 				if !sc.Peers[i].Honest {
+					continue
+				}
+				h.mu.Lock()
+				n := h.reconnects[sc.Peers[i].Name]
+				h.mu.Unlock()
+				if (sc.Peers[i].Late && !lateDone[i]) || n < 6 || h.node.sw.Peers().Has(h.peerIDs[i]) {
+					allGone = false
+				}
+			}
+			if !allGone {
+				exhaustedSince = time.Time{}
+			} else if exhaustedSince.IsZero() {
+				exhaustedSince = time.Now()
+			}
+			if atomic.LoadInt32(&h.honestErrDrops) >= 12 || (allGone && time.Since(exhaustedSince) > 500*time.Millisecond) {
+				select {
+				case abortCh <- "honest peers were dropped again and again until their re-connect budget was used up":
+				default:
+				}
+			}
+			for i := range sc.Peers {
+				if !sc.Peers[i].Honest || (sc.Peers[i].Late && !lateDone[i]) {
 					continue
 				}
 				gone := !h.node.sw.Peers().Has(h.peerIDs[i]) && !h.peerSw[i].Peers().Has(h.nodeID)
@@ -549,6 +598,9 @@ func runScenario(sc *Scenario, w *world) *Result {
 	res := &Result{Scenario: sc, Counts: map[string]int{}}
 	select {
 	case <-h.handCh:
+	case why := <-abortCh:
+		res.Watchdog = true
+		res.Aborted = why
 	case <-time.After(wd):
 		res.Watchdog = true
 	}
@@ -676,7 +728,7 @@ func (h *harness) evaluate(res *Result) {
 		case "node_remove_peer":
 			if p != nil {
 				p.Removed = append(p.Removed, e.Info)
-				if strings.Contains(e.Info, "blockchainReactor validation error") {
+				if isValidationDrop(sc.Version, e.Info) {
 					p.ValidationDrops++
 				}
 			}
@@ -712,6 +764,12 @@ func (h *harness) evaluate(res *Result) {
 	// three per liar; the +3 is slack.
 	if v0 && honestValDrops > 3*nLiars+3 {
 		add("v0-canonical-blocks-rejected", "honest peers were dropped %d times for \"validation error\" although only %d lying peers ever connected: the node rejects canonical blocks carrying their canonical commits", honestValDrops, nLiars)
+	}
+
+	if sc.Version == "v0" || sc.Version == "v1" {
+		before := len(res.Findings)
+		h.pairOracles(evs, handSeq, add)
+		res.Counts["pair_oracle_findings"] = len(res.Findings) - before
 	}
 
 	// O6 and O7 are argued from the v0 pool's code paths and hold below its 30 s request retry and 15 s peer timeout
@@ -763,6 +821,31 @@ func (h *harness) evaluate(res *Result) {
 				}
 			}
 		}
+		// v2 is built with a mock behaviour reporter: it never disconnects anybody.  The same oracle as
+		// O7 says so (no timing argument is needed: nothing in v2 removes a peer from the switch).
+		if sc.Version == "v2" && !sc.Timeouts {
+			// ... and, as it removes BOTH senders of a failed pair from its scheduler for good while they
+			// stay connected (so they never come back through a re-connect), one bad block from one peer
+			// can end the sync far below the tip with an honest peer still connected and serving (O6).
+			for _, p := range res.Peers {
+				spec := h.specOf(p.Name)
+				if p.Honest && len(p.Removed) == 0 && p.ConnectedAtHand && p.Requests > 0 && H < spec.Height-2 {
+					add("v0-handover-before-tip", "hand-over at height %d although honest peer %s (status height %d) had been serving requests, was never disconnected and is still connected", H, p.Name, spec.Height)
+					break
+				}
+			}
+			for _, p := range res.Peers {
+				if p.Honest || !p.ConnectedAtHand {
+					continue
+				}
+				for _, bh := range p.AnsweredBadAsked {
+					if bh <= H {
+						add("v0-liar-still-connected", "peer %s answered the request for height %d with a non-canonical block, the node has passed that height (now %d), and the peer is still connected at the hand-over (nodes removed by this reactor during the whole sync: %d)", p.Name, bh, H, int(atomic.LoadInt32(&h.errDrops)))
+						break
+					}
+				}
+			}
+		}
 		switch {
 		case H >= honestTip-1:
 			res.Counts["handover_at_or_above_honest_tip_minus_1"]++
@@ -773,6 +856,9 @@ func (h *harness) evaluate(res *Result) {
 		}
 	} else {
 		res.Inconclusive = "no hand-over before the wall-clock watchdog"
+		if res.Aborted != "" {
+			res.Inconclusive = "no hand-over: " + res.Aborted
+		}
 		if res.LastSeen != nil && (!res.LastSeen.AllValid || !res.LastSeen.AddrOK) {
 			res.Counts["last_seen_invalid_without_handover"]++
 		}
@@ -782,6 +868,111 @@ func (h *harness) evaluate(res *Result) {
 		evs = append(evs[:200], evs[len(evs)-200:]...)
 	}
 	res.Events = evs
+}
+
+// isValidationDrop: the reason the node gave for removing a peer is "the pair of blocks did not verify".
+func isValidationDrop(version, reason string) bool {
+	switch version {
+	case "v0":
+		return strings.Contains(reason, "blockchainReactor validation error")
+	case "v1":
+		return strings.Contains(reason, "fast sync block verification failure")
+	}
+	return false
+}
+
+// pairOracles walks the event log in order and judges how the node treated the peers of a pair that
+// failed verification (v0 and v1, which both promise to drop the senders of both blocks of the pair).
+// s = height of the last block saved; the pair under verification is always (s+1, s+2).
+//
+//	(a) sender kept: an honest peer is dropped for a failed pair a second time at the same s while a
+//	    lying peer whose non-canonical answer sits at s+1 or s+2 since before the first of those drops
+//	    has still not been removed (correct code removes both senders in the same step);
+//	(b) honest peers dropped in its place: five validation drops of honest peers in a row at the same
+//	    s without any lying peer being removed in between (a failed pair removes its liar; one stale
+//	    re-evaluation can cost two more honest peers, never four);
+//	(c) stuck: honest peers delivered the canonical block s+1 more than 3*r+3 times while the store
+//	    stayed at s and only r lying peers were removed meanwhile.
+func (h *harness) pairOracles(evs []Event, handSeq int, add func(key, format string, a ...interface{})) {
+	sc, w := h.sc, h.w
+	s := w.first - 1
+	if sc.NodeStart > 0 {
+		s = sc.NodeStart
+	}
+	asked := map[string]map[int64]bool{}
+	holding := map[string]map[int64]int{} // liar -> height -> seq of its non-canonical answer, since it connected
+	firstHonestDrop, run, liarRemovals, deliveries := -1, 0, 0, 0
+	fired, gone := map[string]bool{}, map[string]bool{}
+	once := func(key, format string, a ...interface{}) {
+		if !fired[key] {
+			fired[key] = true
+			add(key, format, a...)
+		}
+	}
+	for _, e := range evs {
+		if e.Seq >= handSeq {
+			break
+		}
+		spec := h.specOf(e.Who)
+		switch e.Kind {
+		case "save":
+			if e.H > s {
+				s = e.H
+				firstHonestDrop, run, liarRemovals, deliveries = -1, 0, 0, 0
+			}
+		case "req_received":
+			if asked[e.Who] == nil {
+				asked[e.Who] = map[int64]bool{}
+			}
+			asked[e.Who][e.H] = true
+		case "block_delivered":
+			switch {
+			case spec.Name == "":
+			case !spec.Honest && e.Info == "noncanonical" && asked[e.Who][e.H] && !gone[e.Who]:
+				// (a block that fails ValidateBasic never enters the pool; liars do not come back)
+				if holding[e.Who] == nil {
+					holding[e.Who] = map[int64]int{}
+				}
+				holding[e.Who][e.H] = e.Seq
+			case spec.Honest && e.Info == "canonical" && e.H == s+1:
+				deliveries++
+				if deliveries > 3*liarRemovals+3 {
+					once("v0-sync-stuck-with-honest-peer-available", "honest peers delivered the canonical block %d to the node %d times while its store stayed at height %d and only %d lying peers were removed meanwhile: the sync does not advance although an honest peer serves the next block", s+1, deliveries, s, liarRemovals)
+				}
+			}
+		case "node_remove_peer":
+			switch {
+			case spec.Name == "":
+			case !spec.Honest:
+				delete(holding, e.Who)
+				gone[e.Who] = true
+				if e.Info != "<nil>" {
+					liarRemovals++
+					run = 0
+				}
+			case isValidationDrop(sc.Version, e.Info):
+				run++
+				if run >= 5 {
+					once("v0-honest-peer-dropped-for-others-bad-block", "%d validation drops of honest peers in a row at store height %d (the last one: %s) without a lying peer being removed in between", run, s, e.Who)
+				}
+				if firstHonestDrop >= 0 {
+					for liar, hs := range holding {
+						for _, bh := range []int64{s + 2, s + 1} {
+							if seq, ok := hs[bh]; ok && seq < firstHonestDrop {
+								which := "second"
+								if bh == s+1 {
+									which = "first"
+								}
+								once("v0-hostile-"+which+"-block-sender-kept", "honest peer %s was dropped for a failed verification of the pair (%d,%d) for the second time, while %s, whose non-canonical answer for height %d has been sitting in that pair since before the first of those drops, has still not been removed", e.Who, s+1, s+2, liar, bh)
+							}
+						}
+					}
+				} else {
+					firstHonestDrop = e.Seq
+				}
+			}
+		}
+	}
 }
 
 func (h *harness) specOf(name string) *PeerSpec {
